@@ -148,7 +148,7 @@ theorem uItems_core_prefix {r : Prefs} (hr : WsPrefs r) (lv : Nat) : ∀ (items 
                  else indentblock r [125] 1)) ty
         obtain ⟨X, hX⟩ := uItems_core_prefix hr lv rest _ _ t ht
         exact ⟨Y ++ X, by rw [hX, hY, List.append_assoc]⟩
-    · obtain ⟨Y, hY⟩ := uPush_core hr (lv + 1) o st (.str s) ty
+    · obtain ⟨Y, hY⟩ := uPush_core hr (lv + 1) o st (.str s) (if ty == t_HASH then t_None else ty)
       obtain ⟨X, hX⟩ := uItems_core_prefix hr lv rest _ _ t ht
       exact ⟨Y ++ X, by rw [hX, hY, List.append_assoc]⟩
   | .comment c :: rest, o, st, t, ht => by
@@ -244,7 +244,8 @@ theorem uItems_layout (lv lw : Nat) : ∀ (items : List UItem) (o o' : O) (st st
         rw [ne_open_of_strip e1, ne_open_of_strip e2]
         simp only [Bool.and_false, Bool.false_eq_true, if_false]
         exact uItems_layout lv lw rest _ _ _ _ pr.1 pr.2
-    · have pr := uPush_rel hp hq h (il := lv + 1) (im := lw + 1) ho hs (AValRel.refl ty (.str s))
+    · generalize (if ty == t_HASH then t_None else ty) = ty1
+      have pr := uPush_rel hp hq h (il := lv + 1) (im := lw + 1) ho hs (AValRel.refl ty1 (.str s))
       split
       · exact uItems_layout lv lw rest _ _ _ _ pr.1 (.cons rfl pr.2)
       · exact uItems_layout lv lw rest _ _ _ _ pr.1 pr.2
